@@ -125,7 +125,10 @@ pub fn run_zoom(a: &Args) -> Result<(), String> {
         if z.start >= z.end || z.end - z.start > size { return Err(format!("bad record span {}-{} (resolution {})", z.start, z.end, size)); }
         if z.start < last_end { return Err(format!("records overlap at {}-{}", z.start, z.end)); }
         last_end = z.end;
-        let (bases, sum, _ssq, _mn, _mx) = depth_stats(&entries, z.start, z.end);
+        let (bases, sum, _ssq, mn, mx) = depth_stats(&entries, z.start, z.end);
+        if bases > 0 && ((z.summary.min_val - mn).abs() > 1e-6 || (z.summary.max_val - mx).abs() > 1e-6) {
+            return Err(format!("record {}-{} min/max={}/{} but the depth inside it has {}/{}", z.start, z.end, z.summary.min_val, z.summary.max_val, mn, mx));
+        }
         if z.summary.bases_covered != bases { return Err(format!("record {}-{} bases_covered={} expected {}", z.start, z.end, z.summary.bases_covered, bases)); }
         if (z.summary.sum - sum).abs() > 1e-3 { return Err(format!("record {}-{} sum={} expected {}", z.start, z.end, z.summary.sum, sum)); }
         total += bases;
